@@ -47,6 +47,7 @@ type Engine struct {
 	withLemmas bool
 	pureBody   map[*ssa.Function]bool
 	cache      *proofCache
+	localChecks int
 }
 
 type Options struct {
